@@ -23,6 +23,38 @@ class SimInvalidRange(SimTransportError):
     """The service's answer to a range that starts at or beyond the end of the blob (HTTP 416)."""
 
 
+class SimIncompleteRead(SimTransportError):
+    """Stands for the SDK's IncompleteReadError / ServiceResponseError."""
+
+
+def local_exception(arg):
+    """The exception an injected local read failure raises; `arg` (seeded) selects the class so that
+    error handling written for one class only (ConnectionError, TimeoutError, EINTR ...) is met."""
+    k = (arg or 0) % 5
+    if k == 0:
+        return OSError(errno.EIO, 'Input/output error (injected)')
+    if k == 1:
+        return TimeoutError(errno.ETIMEDOUT, 'Connection timed out (injected)')
+    if k == 2:
+        return ConnectionResetError(errno.ECONNRESET, 'Connection reset by peer (injected)')
+    if k == 3:
+        return InterruptedError(errno.EINTR, 'Interrupted system call (injected)')
+    return OSError(errno.ESTALE, 'Stale file handle (injected)')
+
+
+def remote_exception(arg, where):
+    k = (arg or 0) % 5
+    if k == 0:
+        return SimTransportError(f'service unavailable during {where} (injected)')
+    if k == 1:
+        return TimeoutError(f'timed out during {where} (injected)')
+    if k == 2:
+        return ConnectionResetError(errno.ECONNRESET, f'connection reset during {where} (injected)')
+    if k == 3:
+        return SimIncompleteRead(f'incomplete read during {where} (injected)')
+    return OSError(errno.EIO, f'I/O error during {where} (injected)')
+
+
 def _yp(kind, info=(), advance=0.0):
     s = core.current()
     if s is not None:
@@ -72,6 +104,7 @@ class SimFS:
         self.read_only = set()
         self.seq = 0
         self.open_handles = []
+        self.fds = {}            # fake file descriptor -> handle (fileno() of simulated handles)
 
     # -- helpers -----------------------------------------------------------------------------
     def _next_seq(self):
@@ -93,6 +126,64 @@ class SimFS:
     def new_call(self):
         self.call_id += 1
         return self.call_id
+
+    FD_BASE = 1 << 20
+
+    def fd_of(self, handle):
+        fd = self.FD_BASE + handle._hid
+        self.fds[fd] = handle
+        return fd
+
+    # -- metadata operations of the simulated OS (all logged, all crash points) ------------------
+    def os_truncate(self, path, size, hid=0):
+        f = self.files[path]
+        entry = (self._next_seq(), path, hid, 'ftrunc', size, b'', _thread_name())
+        self.oslog.append(entry)
+        SimFS.apply(f, entry)
+
+    def os_rename(self, src, dst):
+        if src not in self.files:
+            raise FileNotFoundError(errno.ENOENT, 'No such file or directory', src)
+        if dst in self.read_only or src in self.read_only:
+            raise core.HarnessError(f'rename touching read-only library file {src} -> {dst}')
+        _yp('w.rename')
+        self.oslog.append((self._next_seq(), dst, 0, 'rename', 0, src, _thread_name()))
+        self.files[dst] = self.files.pop(src)
+
+    def os_remove(self, path):
+        if path not in self.files:
+            raise FileNotFoundError(errno.ENOENT, 'No such file or directory', path)
+        if path in self.read_only:
+            raise core.HarnessError(f'removal of read-only library file {path}')
+        _yp('w.remove')
+        self.oslog.append((self._next_seq(), path, 0, 'remove', 0, b'', _thread_name()))
+        del self.files[path]
+
+    @staticmethod
+    def replay(oslog, upto=None, torn=None):
+        """State of the simulated disk after the first `upto` log entries (all when None), the next
+        one optionally cut after `torn` bytes: {path: bytearray}."""
+        files = {}
+        n = len(oslog) if upto is None else upto
+        for entry in oslog[:n]:
+            SimFS.apply_fs(files, entry)
+        if torn is not None and n < len(oslog):
+            SimFS.apply_fs(files, oslog[n], upto=torn)
+        return files
+
+    @staticmethod
+    def apply_fs(files, entry, upto=None):
+        _, path, _, kind, off, data, _ = entry
+        if kind == 'rename':
+            if data in files:
+                files[path] = files.pop(data)
+            return
+        if kind == 'remove':
+            files.pop(path, None)
+            return
+        if kind == 'fsync':
+            return
+        SimFS.apply(files.setdefault(path, bytearray()), entry, upto)
 
     # -- open --------------------------------------------------------------------------------
     def open(self, path, mode='r', buffering=-1, *args, **kwargs):
@@ -151,6 +242,14 @@ class SimFS:
         _, _, _, kind, off, data, _ = entry
         if kind == 'trunc':
             del img[:]
+            return
+        if kind == 'ftrunc':
+            if off < len(img):
+                del img[off:]
+            else:
+                img.extend(bytes(off - len(img)))
+            return
+        if kind in ('fsync', 'rename', 'remove'):
             return
         if upto is not None:
             data = data[:upto]
@@ -219,12 +318,11 @@ class SimRaw(io.RawIOBase):
     def truncate(self, size=None):
         if size is None:
             size = self._pos
-        f = self.fs.files[self.path]
-        if size < len(f):
-            del f[size:]
-        else:
-            f.extend(bytes(size - len(f)))
+        self.fs.os_truncate(self.path, size, self.hid)
         return size
+
+    def fileno(self):
+        return self.fs.FD_BASE + self.hid
 
 
 class SimWriteHandle:
@@ -287,10 +385,16 @@ class SimWriteHandle:
         self._buf.close()
 
     def truncate(self, size=None):
-        raise core.HarnessError('unsupported stub API: truncate on simulated file')
+        _yp('w.truncate', info=(self._hid,))
+        self._log('truncate', size if size is not None else self._buf.tell())
+        return self._buf.truncate(size)
 
     def fileno(self):
-        raise io.UnsupportedOperation('fileno')
+        return self._fs.fd_of(self)
+
+    def os_flush(self):
+        """What os.fsync(fd) sees: nothing of the user-space buffer (that needs flush() first)."""
+        self._fs.oslog.append((self._fs._next_seq(), self._path, self._hid, 'fsync', 0, b'', _thread_name()))
 
     def writable(self):
         return True
@@ -309,24 +413,46 @@ class SimWriteHandle:
         return False
 
 
-class SimReadHandle:
-    """A file opened 'rb' on the simulated file system.  read(n) returns exactly n bytes unless
-    EOF (the semantics of BufferedReader.read on a regular file) or an injected fault."""
+class _NullRaw(io.RawIOBase):
+    def readable(self):
+        return True
+
+    def seekable(self):
+        return True
+
+    def readinto(self, b):
+        return 0
+
+
+class SimReadHandle(io.BufferedReader):
+    """A file opened 'rb' on the simulated file system.  It *is* an io.BufferedReader (what open()
+    returns for a regular file, so type checks in the library see what they see in production), but
+    every method is served from the SimFS image: read(n) returns exactly n bytes unless EOF (the
+    semantics of BufferedReader.read on a regular file) or an injected fault."""
+
+    mode = 'rb'
 
     def __init__(self, fs, path, hid):
+        super().__init__(_NullRaw())
         self._fs = fs
         self._path = path
         self._hid = hid
         self._pos = 0
-        self.name = path
-        self.closed = False
-        self.mode = 'rb'
+        self._sim_closed = False
+
+    @property
+    def name(self):
+        return self._path
+
+    @property
+    def closed(self):
+        return self._sim_closed
 
     def _data(self):
         return self._fs.files[self._path]
 
     def seek(self, off, whence=0):
-        if self.closed:
+        if self._sim_closed:
             raise ValueError('seek of closed file')
         _yp('r.seek', info=(self._hid,))
         if whence == 0:
@@ -344,39 +470,59 @@ class SimReadHandle:
         return self._pos
 
     def read(self, n=-1):
-        if self.closed:
+        if self._sim_closed:
             raise ValueError('read of closed file')
-        _yp('r.read', info=(self._hid,), advance=LAT_LOCAL_READ)
+        out = self._range(self._pos, n, 'r.read')
+        self._pos += len(out)
+        return out
+
+    def pread(self, n, offset):
+        """os.pread on this handle's descriptor: positional, does not move the file position."""
+        return self._range(offset, n, 'r.pread')
+
+    def _range(self, off, n, kind):
+        _yp(kind, info=(self._hid,), advance=LAT_LOCAL_READ)
         fs = self._fs
         data = self._data()
-        off = self._pos
         if n is None or n < 0:
             want = max(0, len(data) - off)
         else:
             want = n
         k, fault = fs.faults.next()
         if fault is not None:
-            kind = fault[0]
-            fs.faults.fired.append((k, kind, off, want, _thread_name()))
-            if kind == 'exception':
+            fk = fault[0]
+            fs.faults.fired.append((k, fk, off, want, _thread_name()))
+            if fk == 'exception':
                 fs.reqlog.append((fs.call_id, 'file', self._path, off, want, -1, _thread_name()))
-                raise OSError(errno.EIO, 'Input/output error (injected)')
+                raise local_exception(fault[1] if len(fault) > 1 else 0)
             avail = bytes(data[off:off + want])
-            if kind == 'empty':
+            if fk == 'empty':
                 out = b''
             else:   # short: a strict prefix
                 m = min(fault[1], max(0, len(avail) - 1))
                 out = avail[:m]
         else:
             out = bytes(data[off:off + want])
-        self._pos = off + len(out)
         fs.reqlog.append((fs.call_id, 'file', self._path, off, want, len(out), _thread_name()))
         return out
+
+    read1 = read
 
     def readinto(self, b):
         d = self.read(len(b))
         b[:len(d)] = d
         return len(d)
+
+    readinto1 = readinto
+
+    def peek(self, n=0):
+        raise core.HarnessError('unsupported stub API: peek on simulated file')
+
+    def readline(self, size=-1):
+        raise core.HarnessError('unsupported stub API: readline on simulated binary file')
+
+    def detach(self):
+        raise core.HarnessError('unsupported stub API: detach on simulated file')
 
     def readable(self):
         return True
@@ -387,11 +533,17 @@ class SimReadHandle:
     def writable(self):
         return False
 
+    def flush(self):
+        pass
+
+    def isatty(self):
+        return False
+
     def close(self):
-        self.closed = True
+        self._sim_closed = True
 
     def fileno(self):
-        raise io.UnsupportedOperation('fileno')
+        return self._fs.fd_of(self)
 
     def __enter__(self):
         return self
@@ -399,6 +551,12 @@ class SimReadHandle:
     def __exit__(self, *exc):
         self.close()
         return False
+
+    def __del__(self):
+        pass
+
+    def __repr__(self):
+        return f"<SimReadHandle name={self._path!r}>"
 
 
 class _SimDownload:
@@ -419,7 +577,7 @@ class _SimDownload:
             kind = fault[0]
             if kind == 'exception_readall':
                 fs.reqlog.append((fs.call_id, 'blob', self._blob._path, self._off, self._len, -1, _thread_name()))
-                raise SimTransportError('connection reset during download (injected)')
+                raise remote_exception(fault[1] if len(fault) > 1 else 0, 'readall')
             if kind == 'empty':
                 avail = b''
             elif kind == 'short':
@@ -451,7 +609,7 @@ class SimBlob:
             fs.faults.fired.append((k, fault[0], off, ln, _thread_name()))
             if fault[0] == 'exception':
                 fs.reqlog.append((fs.call_id, 'blob', self._path, off, ln, -1, _thread_name()))
-                raise SimTransportError('service unavailable (injected)')
+                raise remote_exception(fault[1] if len(fault) > 1 else 0, 'download_blob')
         if off >= size and size > 0 or (size == 0 and off > 0):
             fs.reqlog.append((fs.call_id, 'blob', self._path, off, ln, -1, _thread_name()))
             raise SimInvalidRange('InvalidRange: The range specified is invalid for the current size')
